@@ -1390,11 +1390,14 @@ fn check_memory() {
         }
     }
     let live = alloc::live_blocks();
+    // (b) bookkeeping of live objects: bounded, not predicted (an implementation may
+    // keep more than one block per object); the exact statement is (c) below.
+    let tables_allowed = tables_allowed * 4;
     if live > expected_rcbox_live + tables_allowed {
         soft(
             "leak",
             "bookkeeping-or-temporary-left",
-            &format!("{live} library blocks are live after the call, but only {expected_rcbox_live} object allocations and at most {tables_allowed} bookkeeping tables can be accounted for"),
+            &format!("{live} library blocks are live after the call, but only {expected_rcbox_live} object allocations and at most {tables_allowed} bookkeeping blocks (4 per live object that ever had a record) can be accounted for"),
         );
     }
     if all_dead && m(|m| m.pw.is_empty()) {
